@@ -103,6 +103,15 @@ def run(ctx):
                     pts.append(r[rng.randrange(len(r))])
                 else:
                     pts.append((max(xs) + rng.choice([1.0, 7.5]), min(ys) - rng.choice([0.125, 3.0])))
+            if rep == 1:
+                # two requests a hair apart (2^-24 degrees) on either side of a cell edge: different cells, or one inside and
+                # one outside the model
+                _, r = rng.choice(rings)
+                k = rng.randrange(len(r))
+                a, b = r[k], r[(k + 1) % len(r)]
+                mx, my = (a[0] + b[0]) / 2, (a[1] + b[1]) / 2
+                dl = 2.0 ** -24
+                pts += [(mx + dl, my + dl / 2), (mx - dl, my - dl / 2)]
             if rep == 0:
                 pts[0] = (max(xs) + 5.0, max(ys) + 5.0)      # the first point misses
             # which cell each point belongs to: the lowest-indexed polygon that contains or touches it
